@@ -1,19 +1,12 @@
 #!/bin/bash
-# Runs every seeded change against the check(s) of its property (quick tier unless noted).
+# seed_matrix.sh <lane>: runs every seeded change against the quick check of its property (two lanes share the list).
 cd /verif
-run() { ./selftest/run_seed.sh seeded/$1 $2 ${3:-}; }
-run C12-a C12
-run C13-a C13
-run C14-a C14
-run C15-a C15
-run C07-a C07
-run C17-a C17
-run C03-a C03
-run C19-a C19
-run C11-a C11
-run C06-a C06
-run C20-a C20
-run C01-a C08 f_no_ambiguity_nullable_repeat_greedy,f_no_ambiguity_nullable_greedyfixed,f_no_ambiguity_nullable_unambiguous
-run C01-a C01
-run C05-a C05
-run C02-a C02
+LANE=${1:-0}
+SEEDS="C12-a:C12 C13-a:C13 C14-a:C14 C15-a:C15 C07-a:C07 C17-a:C17 C03-a:C03 C19-a:C19 C11-a:C11 C06-a:C06 C20-a:C20 C01-a:C01 C05-a:C05 C02-a:C02 C08-a:C08 C01-b:C01 C02-b:C02 C03-b:C03 C05-b:C05 C06-b:C06 C07-b:C07 C08-b:C08 C11-b:C11 C12-b:C12 C13-b:C13 C14-b:C14 C15-b:C15 C17-b:C17 C19-b:C19 C20-b:C20 C11-b:C09 C02-b:C20 C17-a:C20 C05-b:C03 C01-a:C08"
+i=0
+for sp in $SEEDS; do
+  if [ $((i % 2)) -eq "$LANE" ]; then
+    VERIF_JOBS=7 ./selftest/run_seed.sh seeded/${sp%%:*} ${sp##*:}
+  fi
+  i=$((i+1))
+done
